@@ -7,7 +7,6 @@ pattern, storage, value table) a FRESH solver object runs the history
 
 and every answer is judged against dense reference algebra (pmc.engine.tol.rel_residual, numpy only):
 residual of op(A) x = b, shape, real/complex kind, finite values, right-hand side and matrix untouched."""
-import itertools
 import numpy as np
 from pmc.refs import fe
 from pmc.refs import solver as rs
@@ -403,7 +402,9 @@ def variant(case, s):
     if nm == 'SolverDenseLDL':
         return f"hermitian={s.hermitian}"
     if nm == 'CG':
-        return case['prec'].split('/')[0] if case['prec'].startswith('mg') else case['prec']
+        pr = case['prec']
+        return ('multigrid' if pr.startswith('mg') else 'jacobi' if pr.startswith('jac') else 'sor'
+                if pr.startswith('sor') else pr)
     return ''
 
 
@@ -445,10 +446,12 @@ def execute(case):
     V = []
     nsolve = nchecks = 0
     outcomes = set()
-    state = {'solver': None}
+    zc_hit = [False]
 
     def viol(check, sig, detail, point):
         sig = dict({'check': check}, **sig)
+        if sig.get('rhs') == 'zero_column':
+            zc_hit[0] = True
         if any(v['signature'] == sig for v in V):
             return
         narrowed = case
@@ -480,7 +483,7 @@ def execute(case):
             lab = solver_label(s) if s is not None else case['solver']
             viol('raised', {'solver': lab, 'stage': 'update', 'exc': type(e).__name__, 'where': where_raised(e),
                             'matrix': mclass}, {'error': str(e)[:300], 'matrix': Aref, 'step': step}, None)
-            outcomes.add(f"{lab}/{mclass}/update_raised")
+            outcomes.add(f"{case['solver']}>{lab}/{mclass}/update_raised")
             break
         lab = solver_label(s)
         var = variant(case, s)
@@ -500,6 +503,10 @@ def execute(case):
                     if only_step is not None and step != only_step:
                         continue
                     b = make_rhs(rn, n, t)
+                    if is_cg and zc_hit[0] and only_step is None and has_zero_column(b):
+                        # the history of this case stops exploring zero columns once they have produced a violation
+                        observed_only.append('zero_column_point_not_run_after_first_zero_column_violation')
+                        continue
                     bc = np.iscomplexobj(b)
                     judged = True
                     tagx = ''
@@ -518,10 +525,12 @@ def execute(case):
                     x0 = make_x0(x0k, Aref, b, tr, t)
                     x0_in = None if x0 is None else x0.copy()
                     zc = has_zero_column(b)
-                    rkind = 'zero_column' if zc else ('complex' if bc else 'real')
+                    rkind = 'complex' if bc else 'real'
+                    mkind = 'complex' if pA['complex'] else 'real'
                     base = {'solver': lab, 'opt': var}
                     det = {'matrix': Aref, 'rhs': b, 'trans': tr, 'x0': x0k, 'step': step, 'storage': storage,
-                           'family': mclass}
+                           'family': mclass, 'config': case['solver'], 'prec': case.get('prec'),
+                           'tol': case.get('tol')}
                     try:
                         if is_cg or x0k != 'none':
                             x = s.solve(b_in, x0=x0_in, trans=tr)
@@ -537,7 +546,7 @@ def execute(case):
                             sig = {'solver': lab, 'rhs': 'zero_column', 'exc': type(e).__name__}
                         else:
                             sig = dict(base, stage='solve', exc=type(e).__name__, where=where_raised(e),
-                                       matrix=('complex' if pA['complex'] else 'real'), rhs=rkind)
+                                       matrix=mkind, rhs=rkind)
                         viol('raised', sig, dict(det, error=str(e)[:300]), point)
                         ok = False
                         continue
@@ -566,14 +575,13 @@ def execute(case):
                         if zc:
                             sig = {'solver': lab, 'rhs': 'zero_column'}
                         else:
-                            sig = dict(base, trans=tr, matrix=mclass, rhs=rkind)
+                            sig = dict(base, trans=tr, matrix=mkind, rhs=rkind)
                         viol('nan', sig, dict(det, x=x), point)
                         ok = False
                         continue
                     want_c = pA['complex'] or bc
                     if np.iscomplexobj(x) != want_c or x.dtype not in (np.float64, np.complex128):
-                        viol('kind', dict(base, matrix='complex' if pA['complex'] else 'real',
-                                          rhs='complex' if bc else 'real', got=str(x.dtype)), det, point)
+                        viol('kind', dict(base, matrix=mkind, rhs=rkind, got=str(x.dtype)), det, point)
                         ok = False
                     # residual of the requested system
                     if is_cg:
@@ -588,12 +596,10 @@ def execute(case):
                         res = float(np.max(rn_ / np.where(bn_ == 0, 1.0, bn_)))
                         bound = 1e-9
                     if not good:
-                        sig = dict(base, trans=tr, matrix=mclass, rhs=rkind)
-                        if is_cg and x0k != 'none':
-                            sig['x0'] = 'given'
+                        sig = dict(base, trans=tr, matrix=mkind, rhs=rkind)
                         viol('residual', sig, dict(det, residual=res, bound=bound, x=x, magnitude=mag(res)), point)
                         ok = False
-        outcomes.add(f"{lab}/{var}/{mclass}/{'ok' if ok else 'bad'}")
+        outcomes.add(f"{case['solver']}>{lab}/{var}/{mclass}/{'ok' if ok else 'bad'}")
 
     # a narrowed descriptor must reproduce its own violation; otherwise keep the full case
     if only_step is None:
